@@ -55,7 +55,9 @@ def run(tier):
             for ipadd in ((1,) if quick and phase == "pflow" else (1, 0)):
                 tasks.append(dict(sid="jac[%s|%s|ipadd=%d]" % (c, phase, ipadd), case=c, phase=phase, ipadd=ipadd,
                                   maxcols=250 if quick else 1200))
-    for c in stock[:4 if quick else 20]:
+    altered = [c for c in ("kundur/kundur_full.json", "ieee14/ieee14_solar.xlsx", "ieee14/ieee14_full.xlsx", "5bus/pjm5bus.json") if c in stock] \
+        if quick else stock[:20]
+    for c in altered:
         tasks.append(dict(sid="jac[%s|tds|altered]" % c, case=c, phase="tds", ipadd=1, maxcols=250 if quick else 1200, alter_after_init=True))
     for c in stock[:4 if quick else 20]:
         for ipadd in (1, 0):
@@ -90,12 +92,12 @@ def run(tier):
         decided = {m: v for m, v in by_model.items() if m not in und}
         if r_.get("cut_off_bus_rows_keep_device_entries"):
             traces.append(dict(meta=dict(tid=len(traces) + 1, sid="fd[cut_off_bus_rows|%s|%s]" % (t["case"], t["phase"])),
-                               ev=[dict(e="jac", fd_ok=False, pattern_stable=True, modes_agree=True)],
+                               ev=[dict(e="jac", fd_ok=False, pattern_stable=True, modes_agree=True, mass_current=True)],
                                detail=dict(case=t["sid"], entries=r_["cut_off_bus_rows_keep_device_entries"])))
-        traces.append(dict(meta=dict(tid=len(traces) + 1, sid=t["sid"]), ev=[dict(e="jac", fd_ok=True, pattern_stable=r_["pattern_stable"], modes_agree=r_.get("modes_agree", True))],
+        traces.append(dict(meta=dict(tid=len(traces) + 1, sid=t["sid"]), ev=[dict(e="jac", fd_ok=True, pattern_stable=r_["pattern_stable"], modes_agree=r_.get("modes_agree", True), mass_current=r_.get("mass_current", True))],
                            detail=dict(r_, pairs=None)))
         for m, prs in sorted(decided.items()):
-            traces.append(dict(meta=dict(tid=len(traces) + 1, sid="fd[%s]" % m), ev=[dict(e="jac", fd_ok=False, pattern_stable=True, modes_agree=True)],
+            traces.append(dict(meta=dict(tid=len(traces) + 1, sid="fd[%s]" % m), ev=[dict(e="jac", fd_ok=False, pattern_stable=True, modes_agree=True, mass_current=True)],
                                detail=dict(case=t["sid"], pairs=prs[:6])))
     verdicts, tl = tracecheck.validate([dict(meta=t["meta"], ev=t["ev"]) for t in traces], "Trace_PF")
     for t in tl:
